@@ -517,7 +517,7 @@ class MProcess(QOperation):
                 on_para_eq_constraint=False,
                 eps_truncate_imaginary_part=eps_truncate_imaginary_part,
             )
-            if on_para_eq_constraint is True and hs_index == len(hss) - 1:
+            if on_para_eq_constraint and hs_index == len(hss) - 1:
                 proj_hs = np.delete(proj_hs, np.s_[0 : c_sys.dim ** 2])
             new_var = np.append(new_var, proj_hs)
 
